@@ -128,14 +128,17 @@ def handle (st : St) (line : String) : St × String :=
       let st' : St := { sched := sched }
       (st', s!"ok | - | - | {obs st'}")
   | ["down", n] =>
+    if st.dead then (st, "dead") else
     match n.toNat? with
     | some n => let st' := setFlag st n (fun f => { f with down := true }); (st', s!"ok | - | - | {obs st'}")
     | none => (st, "bad-op")
   | ["broken", n] =>
+    if st.dead then (st, "dead") else
     match n.toNat? with
     | some n => let st' := setFlag st n (fun f => { f with broken := true }); (st', s!"ok | - | - | {obs st'}")
     | none => (st, "bad-op")
   | ["spec", n, k] =>
+    if st.dead then (st, "dead") else
     match n.toNat?, k.toNat? with
     | some n, some k => let st' := { st with specs := AList.set st.specs n k }; (st', s!"ok | - | - | {obs st'}")
     | _, _ => (st, "bad-op")
